@@ -5,6 +5,7 @@ import (
 	"go/token"
 	"go/types"
 	"sort"
+	"strconv"
 	"strings"
 )
 
@@ -135,7 +136,15 @@ func init() {
 			wantB := map[string]string{"boolean": `"false"`, "numeric": `"0"`, "string": "`\"\"`", "unsafe-pointer": `"nil"`}
 			keyOf := map[string]string{"boolean": "Boolean", "numeric": "Numeric(Integer|Float|Complex)", "string": "String", "unsafe-pointer": "UnsafePointer"}
 			for _, k := range []string{"boolean", "numeric", "string", "unsafe-pointer"} {
-				r.Check(classes[k] == wantB[k], "zeroValue/Basic:"+keyOf[k], fi.Decl.Pos(), "basic %s ↦ %s (want %s)", k, classes[k], wantB[k])
+				// compare the VALUE of the literal, however it is quoted ("\"\"" and `""` are the same string)
+				got, want := classes[k], wantB[k]
+				if u, err := strconv.Unquote(got); err == nil {
+					got = u
+				}
+				if u, err := strconv.Unquote(want); err == nil {
+					want = u
+				}
+				r.Check(got == want, "zeroValue/Basic:"+keyOf[k], fi.Decl.Pos(), "basic %s ↦ %s (want %s)", k, classes[k], wantB[k])
 			}
 			// the value is computed for the injector's own result type at its single use (C03.R1 model)
 		})
@@ -235,7 +244,7 @@ func init() {
 						ok = true
 					}
 					for _, g := range fi.Guards(cl) {
-						if be, isB := ast.Unparen(g.Expr).(*ast.BinaryExpr); isB && g.Neg && be.Op == token.EQL && types.ExprString(be.Y) == "0" {
+						if be, isB := ast.Unparen(g.Expr).(*ast.BinaryExpr); isB && ((g.Neg && be.Op == token.EQL) || (!g.Neg && (be.Op == token.NEQ || be.Op == token.GTR))) && types.ExprString(be.Y) == "0" {
 							if l := fi.isBuiltin(be.X, "len"); l != nil && fi.sameExpr(l.Args[0], cl.Args[0]) {
 								ok = true
 							}
@@ -540,8 +549,8 @@ func init() {
 	register("C20.R5", "user-sized sequences are indexed in range: every X[k] on argument/spec/statement lists of user syntax and every Struct.Field/Tag(k), Tuple.At(k) is bounded by a dominating length test, a loop over the same sequence, or a named invariant",
 		func(c *Ctx, r *R) {
 			triage := map[string]string{
-				"processStructProvider/Struct.Field(j)": "j indexes the requested-field list, but a match at (i,j) means requests 0..j named j+1 pairwise distinct fields of st, so j < st.NumFields()",
-				"injectPass/Tuple.At(i)":                "",
+				"processStructProvider/Struct.Field(idx2)": "j indexes the requested-field list, but a match at (i,j) means requests 0..j named j+1 pairwise distinct fields of st, so j < st.NumFields()",
+				"injectPass/Tuple.At(i)":                   "",
 			}
 			delete(triage, "injectPass/Tuple.At(i)")
 			n := 0
@@ -681,7 +690,7 @@ func init() {
 							return true
 						}
 						n++
-						key := fi.Name + "/" + seq + "[" + exprShort(x.Index) + "]"
+						key := fi.Name + "/" + seq + "[" + roleShort(fi, x.Index) + "]"
 						lenOf := func(e ast.Expr) bool {
 							l := fi.isBuiltin(fi.deref(e), "len")
 							return l != nil && fi.sameExpr(l.Args[0], x.X)
@@ -695,7 +704,7 @@ func init() {
 							// index found by scanning a parallel list whose length was tested equal
 							if v := fi.varOf(x.Index); v != nil {
 								for _, g := range fi.Guards(x) {
-									if be, isB := ast.Unparen(g.Expr).(*ast.BinaryExpr); isB && g.Neg && be.Op == token.NEQ && lenOf(be.X) {
+									if be, isB := ast.Unparen(g.Expr).(*ast.BinaryExpr); isB && ((g.Neg && be.Op == token.NEQ) || (!g.Neg && be.Op == token.EQL)) && lenOf(be.X) {
 										if l2 := fi.isBuiltin(be.Y, "len"); l2 != nil {
 											// v ranges over l2's sequence
 											for _, d := range fi.defs[v] {
@@ -722,7 +731,7 @@ func init() {
 							return true
 						}
 						n++
-						key := fi.Name + "/" + short + "(" + exprShort(x.Args[0]) + ")"
+						key := fi.Name + "/" + short + "(" + roleShort(fi, x.Args[0]) + ")"
 						lenOf := func(e ast.Expr) bool {
 							lc := fi.isCall(fi.deref(e), lenName)
 							return lc != nil && fi.sameExpr(recvOf(lc), recvOf(x))
@@ -879,4 +888,71 @@ func init() {
 				}
 			}
 		})
+}
+
+// roleShort renders an index expression for use in an obligation key without
+// the names of locals: a loop counter or range key is idx<depth of its loop>,
+// a range value elem<depth>, any other local v; everything else as written.
+func roleShort(fi *FuncInfo, e ast.Expr) string {
+	s := exprShort(e)
+	ast.Inspect(e, func(nd ast.Node) bool {
+		id, ok := nd.(*ast.Ident)
+		if !ok {
+			return true
+		}
+		v := fi.varOf(id)
+		if v == nil || v.IsField() || v.Parent() == nil || v.Parent() == v.Pkg().Scope() {
+			return true
+		}
+		role := "v"
+		for _, d := range fi.defs[v] {
+			var loop ast.Node
+			switch d.kind {
+			case "range-key":
+				role, loop = "idx", d.node
+			case "range-val":
+				role, loop = "elem", d.node
+			case "define":
+				if f, ok := fi.parent[d.node].(*ast.ForStmt); ok && f.Init == d.node {
+					role, loop = "idx", f
+				}
+			}
+			if loop != nil {
+				depth := 1
+				for p := fi.parent[loop]; p != nil; p = fi.parent[p] {
+					switch p.(type) {
+					case *ast.ForStmt, *ast.RangeStmt:
+						depth++
+					}
+				}
+				role += itoa(depth)
+				break
+			}
+		}
+		s = regexpReplaceWord(s, id.Name, role)
+		return true
+	})
+	return s
+}
+
+func regexpReplaceWord(s, word, with string) string {
+	out := ""
+	for i := 0; i < len(s); {
+		if strings.HasPrefix(s[i:], word) {
+			before := i == 0 || !isIdentByte(s[i-1])
+			after := i+len(word) >= len(s) || !isIdentByte(s[i+len(word)])
+			if before && after {
+				out += with
+				i += len(word)
+				continue
+			}
+		}
+		out += string(s[i])
+		i++
+	}
+	return out
+}
+
+func isIdentByte(b byte) bool {
+	return b == '_' || b >= '0' && b <= '9' || b >= 'a' && b <= 'z' || b >= 'A' && b <= 'Z'
 }
